@@ -270,11 +270,11 @@ func setupModule(mod string) error {
 	if err := os.MkdirAll(filepath.Join(mod, "c05rt"), 0o755); err != nil {
 		return err
 	}
-	gomod := "module " + module + "\n\ngo 1.24.0\n\nrequire github.com/basecomplextech/spec v0.0.0\n\nreplace github.com/basecomplextech/spec => /repo\n"
+	gomod := "module " + module + "\n\ngo 1.24.0\n\nrequire github.com/basecomplextech/spec v0.0.0\n\nreplace github.com/basecomplextech/spec => " + hx.RepoDir() + "\n"
 	if err := os.WriteFile(filepath.Join(mod, "go.mod"), []byte(gomod), 0o644); err != nil {
 		return err
 	}
-	if sum, err := os.ReadFile("/repo/go.sum"); err == nil {
+	if sum, err := os.ReadFile(hx.RepoDir() + "/go.sum"); err == nil {
 		os.WriteFile(filepath.Join(mod, "go.sum"), sum, 0o644)
 	}
 	if err := os.WriteFile(filepath.Join(mod, "c05rt", "rpc.go"), rtRPCSource, 0o644); err != nil {
